@@ -54,7 +54,7 @@ Print Assumptions C09_mkdict_equals_folder.
     compile-time evaluation instead of becoming an error value that a match arm could absorb *)
 Theorem C09_not_callable_stops_folding : forall rs E d name st lg,
   has_func E name = false -> has_macro E name = false -> env_type E name = None -> folding E = true ->
-  step rs E d (ICall 0) (SVal (VIdent name) :: st) lg = (RErr ERuntime, lg).
+  step rs E d (ICall 0) (SVal (VIdent name) :: st) lg = (RErr ERuntime, runtime_mark :: lg).
 Proof. exact not_callable_stops_folding. Qed.
 Print Assumptions C09_not_callable_stops_folding.
 
@@ -87,6 +87,39 @@ Theorem C09_check_for_const_keeps_failing_calls : forall fuel node n bc,
   check_for_const fuel node n = COk (mkCP (NBytecode (of_code bc)) (cp_params node)) n.
 Proof. exact check_for_const_keeps_failing_calls. Qed.
 Print Assumptions C09_check_for_const_keeps_failing_calls.
+
+(** an evaluation that asked for the clock is never frozen, whatever it ended with (a match arm or a
+    counting macro can absorb the refusal); the request is recorded exactly where the clock is refused,
+    it cannot be forgotten, and every other call of those names does not depend on the clock *)
+Theorem C09_check_for_const_rejects_clock_requests : forall fuel node n bc v lg,
+  resolve (into_bytecode (cp_node node)) = Some bc ->
+  run fuel compile_env bc true O [] = (ROk v, lg) -> runtime_requested lg = true ->
+  check_for_const fuel node n = COk (mkCP (NBytecode (of_code bc)) (cp_params node)) n.
+Proof. exact check_for_const_rejects_clock_requests. Qed.
+Print Assumptions C09_check_for_const_rejects_clock_requests.
+
+Theorem C09_clock_request_is_recorded : forall E this lg, folding E = true -> assoc #"now" (e_ufuncs E) = None ->
+  call_func E #"now" this [] lg = (ROk (VErr ERuntime), runtime_mark :: lg).
+Proof. exact clock_request_is_recorded. Qed.
+Print Assumptions C09_clock_request_is_recorded.
+
+Theorem C09_runtime_mark_stays : forall e lg, runtime_requested lg = true -> runtime_requested (e :: lg) = true.
+Proof. exact runtime_mark_stays. Qed.
+Print Assumptions C09_runtime_mark_stays.
+
+Theorem C09_unasked_calls_ignore_the_clock : forall now now' name this args tn,
+  (asks_clock_fn name args = false -> call_default now name this args = call_default now' name this args) /\
+  (asks_clock_ty tn args = false -> construct_type now tn args = construct_type now' tn args).
+Proof. exact unasked_calls_ignore_the_clock. Qed.
+Print Assumptions C09_unasked_calls_ignore_the_clock.
+
+(** the program that showed the defect: the folded call would have been the constant 2 *)
+Example C09_match_on_clock_is_not_frozen :
+  match compile_source 40 #"int(match now() { case timestamp: 1, case _: 2 })" with
+  | COk p _ => existsb (fun i => match i with ICall _ => true | _ => false end) (pr_code p)
+  | _ => false
+  end = true.
+Proof. vm_compute. reflexivity. Qed.
 
 Theorem C09_check_for_const_rejects_nested_errors : forall fuel node n bc v lg,
   resolve (into_bytecode (cp_node node)) = Some bc ->
